@@ -152,6 +152,49 @@ fn main() {
                 }
                 res.count("c04_f10_shapes", 1);
             }
+            // probe: parent identifier / key pairs whose descriptor identifiers collide ("^" + id + "@" + key)
+            {
+                let d = json!({"items\u{266D}": [
+                    {"_id": "a", "b@c\u{266D}": [{"_id": "x", "v": 1}]},
+                    {"_id": "a@b", "c\u{266D}": [{"_id": "y", "v": 2}]}
+                ]});
+                let ad = store::plain_mem();
+                let m = melda::melda::Melda::new(ad).unwrap();
+                let up = obs::guard(|| m.update(d.as_object().unwrap().clone()));
+                let (got, ok) = obs::read_doc(&m);
+                let exp = serde_json::to_string(&gen::expected_read(&d)).unwrap();
+                res.trace.push(format!("update({}) -> read {}", d, got));
+                if !up.is_ok() || !ok || got != exp {
+                    res.viol("C04", "descriptor-identifier-collision-via-at-sign", format!("update({}) reads back {} (expected {})", d, got, exp));
+                }
+                res.count("c04_f10_shapes", 1);
+            }
+            // probe: path-derived identifiers are the hash of the path joined WITHOUT separators
+            {
+                let d = json!({"items\u{266D}": [
+                    {"_id": "a", "xy\u{266D}": {"v": 1}},
+                    {"_id": "ax", "y\u{266D}": {"v": 2}}
+                ]});
+                let ad = store::plain_mem();
+                let m = melda::melda::Melda::new(ad).unwrap();
+                let up = obs::guard(|| m.update(d.as_object().unwrap().clone()));
+                let (got, ok) = obs::read_doc(&m);
+                // the reference assigns the same colliding identifier; compare contents without the generated ids
+                fn strip(v: &serde_json::Value) -> serde_json::Value {
+                    match v {
+                        serde_json::Value::Object(o) => serde_json::Value::Object(o.iter().filter(|(k, x)| !(k.as_str() == "_id" && x.as_str().map(|s| s.len() == 64).unwrap_or(false))).map(|(k, x)| (k.clone(), strip(x))).collect()),
+                        serde_json::Value::Array(a) => serde_json::Value::Array(a.iter().map(strip).collect()),
+                        _ => v.clone(),
+                    }
+                }
+                let exp = strip(&gen::expected_read(&d)).to_string();
+                let gots = serde_json::from_str::<serde_json::Value>(&got).map(|v| strip(&v).to_string()).unwrap_or_default();
+                res.trace.push(format!("update({}) -> read {}", d, got));
+                if !up.is_ok() || !ok || gots != exp {
+                    res.viol("C04", "generated-identifier-collision-unseparated-path", format!("update({}) reads back {} (expected, ids aside, {})", d, got, exp));
+                }
+                res.count("c04_f10_shapes", 1);
+            }
             res.opkinds = "f10".into();
             em.case(0, &res, true);
         }
